@@ -397,7 +397,7 @@ def cases(quick):
         ["none", "cubic", "ortho", "triclinic", "varying", "mono_alpha", "mono_beta", "mono_gamma", "rhombo60", "acute"]
     mags = [1.0, 90.0] if quick else [1e-3, 1.0, 90.0, 950.0]     # 950 nm = 9500 A: just under the %8.3f field limit
     signs = ["mixed"] if quick else ["mixed", "positive"]
-    times = ["nonuniform"] if quick else ["default", "uniform", "nonuniform"]
+    times = ["uniform", "nonuniform"] if quick else ["default", "uniform", "nonuniform"]      # uniform starts at exactly 0 ps
     out = []
     for ext in exts:
         if ext == "gro":
